@@ -869,7 +869,7 @@ class DATETIME(NUMERIC):
     def _parse_datestring(self, qstring):
         # This method parses a very simple datetime representation of the form
         # YYYY[MM[DD[hh[mm[ss[uuuuuu]]]]]]
-        from whoosh.util.times import adatetime, fix, is_void
+        from whoosh.util.times import adatetime, fix, is_void, TimeError
 
         qstring = qstring.replace(" ", "").replace("-", "").replace(".", "")
         year = month = day = hour = minute = second = microsecond = None
@@ -888,8 +888,12 @@ class DATETIME(NUMERIC):
         if len(qstring) == 20:
             microsecond = int(qstring[14:])
 
-        at = fix(adatetime(year, month, day, hour, minute, second,
-                           microsecond))
+        try:
+            at = fix(adatetime(year, month, day, hour, minute, second,
+                               microsecond))
+        except TimeError:
+            # e.g. month 23
+            raise ValueError("%r is not a parseable date" % qstring)
         if is_void(at):
             raise ValueError("%r is not a parseable date" % qstring)
         return at
